@@ -5,7 +5,7 @@ import math
 import warnings
 
 from vlib import env  # noqa  (sys.path)
-from vlib.harness import SubCheck, sut, is_err, short
+from vlib.harness import SubCheck, sut, is_err, short, canon
 from vlib import gen_c07 as G
 
 PROPERTY = "C08"
@@ -110,7 +110,42 @@ def run_chain(es, c0, chain, **kw):
     if is_err(out):
         return out
     x, info, sane = out
-    return np.asarray(x, dtype=float), bool(info["success"]), bool(sane), (lambda: _last_stage(info))
+    own = (lambda: _last_stage(info))
+    own.info = info
+    return np.asarray(x, dtype=float), bool(info["success"]), bool(sane), own
+
+
+def judge_stages(ctx, chain, info):
+    """Structural clause of 'under each solver chain': the stages the chain actually ran are of the requested
+    formulations in the requested order.  Observed on root()'s public info: info['x_vecs'][k] is the k-th stage's
+    result as concentrations, info['intermediate_info'][k]['x'] the same point in the stage's own variables - ln c for
+    NumSysLog (x_vec = exp(x), and exp(y) > y for every y, so the two cannot be confused), c itself for NumSysLin.
+    Nothing is said when the record is absent (conditional_chained drops it) or not finite."""
+    import numpy as np
+    kinds = _CHAIN_KINDS.get(chain)
+    try:
+        xv, ii = info["x_vecs"], info["intermediate_info"]
+    except (KeyError, TypeError):
+        return True
+    if len(xv) != len(kinds) or len(ii) != len(kinds):
+        ctx.fail("chain_stages", chain=chain, requested=list(kinds), stages_recorded=len(ii))
+        return False
+    got = []
+    with np.errstate(all="ignore"):
+        for k in range(len(kinds)):
+            c, y = np.asarray(xv[k], dtype=float), np.asarray(ii[k]["x"], dtype=float)
+            if c.shape != y.shape or not (np.all(np.isfinite(c)) and np.all(np.isfinite(y))):
+                return True
+            if np.array_equal(c, y):
+                got.append("Lin")
+            elif np.allclose(c, np.exp(y), rtol=1e-12, atol=0):      # exp() itself is correctly rounded to ~1 ulp
+                got.append("Log")
+            else:
+                got.append("neither")
+    if got != list(kinds):
+        ctx.fail("chain_stages", chain=chain, requested=list(kinds), observed=got)
+        return False
+    return True
 
 
 def _last_stage(info):
@@ -389,6 +424,8 @@ def check_homog(case, ctx):
         ctx.skip("solver_exception:%s:%s" % (chain, out.type))
         return
     x, success, sane, own = out
+    if getattr(own, "info", None) is not None and not judge_stages(ctx, chain, own.info):
+        return
     if not (success and sane):
         ctx.skip("no_success:" + chain)
         return
@@ -399,24 +436,62 @@ def check_homog(case, ctx):
     judge_homog(ctx, M, x, chain, own)
 
 
-def check_rate(case, ctx):
-    """Frequency clause: >= 19 of 20, judged on batches of 200 generated cases (>= 190 must report success and sane,
-    and - conditional soundness again - be genuine)."""
+def _mirror(body):
+    """The mirror image of a homogeneous case inside the same domain: log10 K shift d -> -d (U(-2, 2) onto itself) and
+    log10 c0 = -v/1000 -> -6 + v/1000 (U(-6, 0) onto itself).  Hypothesis' bounded integers favour small codes (c0 near
+    1, unshifted K); the mirror images populate the opposite corner, and they double the sample a batch is judged on
+    (one generated example cannot hold more than ~200 cases)."""
+    return {"eqs": list(body["eqs"]), "dlogk": [-d for d in body["dlogk"]],
+            "lc0": {sp: -6000 - v for sp, v in body["lc0"].items()}}
+
+
+_HARD = {"Cu-NH3>=3steps": lambda e: len({10, 11, 12, 13} & set(e)) >= 3, "Fe-SCN": lambda e: 14 in e,
+         "phosphate": lambda e: bool({5, 6, 7} & set(e)), "4_equilibria": lambda e: len(e) == 4}
+
+
+def _rate(case, ctx, chain, mirror):
+    """Frequency clause: >= 19 of 20.  Judged on a batch of generated cases (plus their mirror images when `mirror`):
+    at most 1/20 of them may fail to report success-and-sane, and (plain batches) every success must be genuine."""
+    bodies = list(case["batch"])
+    if mirror:
+        bodies += [_mirror(b) for b in case["batch"]]
     nfail = 0
     failed = []
-    for body in case["batch"]:
-        M = G.Model08(dict(body, chain="default"))
+    seen = {}              # the solver stack is deterministic: a body repeated inside the batch is solved once
+    for body in bodies:
+        key = canon(body)
+        if key in seen:
+            nfail += seen[key]
+            continue
+        M = G.Model08(dict(body, chain=chain))
         es = build08(M)
-        out = run_chain(es, M.c0, "default")
-        if is_err(out) or not (out[1] and out[2]):
+        out = run_chain(es, M.c0, chain)
+        seen[key] = int(is_err(out) or not (out[1] and out[2]))
+        if seen[key]:
             nfail += 1
             failed.append(body)
-        else:
-            judge_homog(ctx, M, out[0], "default", out[3])
-    ctx.label("failures_in_batch=%d" % nfail)
+        elif not mirror:
+            judge_homog(ctx, M, out[0], chain, out[3])      # (the mirrored batches only count; 'homogeneous' judges
+            #                                                  the results of these chains on the same domain)
+    ctx.label("failures_in_batch=%d" % nfail if nfail <= 10 else "failures_in_batch>10", "batch_size=%d" % len(bodies))
+    for name, has in sorted(_HARD.items()):
+        n = sum(1 for b in bodies if has(b["eqs"]))
+        ctx.label("%s_in_batch:%s" % (name, "0" if n == 0 else ("1-9" if n < 10 else ">=10")))
     ctx.nontrivial(True)
-    if nfail > len(case["batch"]) // 20:
-        ctx.fail("default_chain_success_rate", failures=nfail, of=len(case["batch"]), first_failed=short(failed[0], 600))
+    if nfail > len(bodies) // 20:
+        ctx.fail("default_chain_success_rate", chain=chain, failures=nfail, of=len(bodies), first_failed=short(failed[0], 600))
+
+
+def check_rate(case, ctx):
+    _rate(case, ctx, "default", False)          # root(init_concs): NumSysLog
+
+
+def check_rate_solve(case, ctx):
+    _rate(case, ctx, "solve", True)             # EqSystem.solve(init_concs): its default chain (NumSysLog, NumSysLin)
+
+
+def check_rate_loglin(case, ctx):
+    _rate(case, ctx, "loglin", True)            # root(init_concs, NumSys=(NumSysLog, NumSysLin))
 
 
 def check_single(case, ctx):
@@ -631,6 +706,8 @@ def check_root_args(case, ctx):
             return
         raise out.exc
     x, info, sane = out
+    if not judge_stages(ctx, chain, info):
+        return
     if not (info["success"] and sane):
         ctx.skip("no_success:" + chain)
         return
@@ -661,6 +738,14 @@ SUBCHECKS = [
     SubCheck("success_rate", check_rate, strategy=G.c08_batches(200), quick=2, thorough=100,
              rule="batches of 200 cases of the homogeneous domain, default chain: >= 190 report success and sane",
              tolerances={"required successes per batch of 200": 190}),
+    SubCheck("success_rate_solve", check_rate_solve, strategy=G.c08_batches(200), quick=2, thorough=48,
+             rule="batches of 200 cases of the homogeneous domain plus their 200 mirror images (K shift and log c0 "
+                  "reflected inside the domain), EqSystem.solve(init_concs) = default chain (NumSysLog, NumSysLin): "
+                  ">= 380 of 400 report success and sane (pinned tree: 0-8 failures per 200, 960 batches)",
+             tolerances={"required successes per batch of 400": 380}),
+    SubCheck("success_rate_loglin", check_rate_loglin, strategy=G.c08_batches(200), quick=2, thorough=48,
+             rule="the same batches through root(init_concs, NumSys=(NumSysLog, NumSysLin)): >= 380 of 400",
+             tolerances={"required successes per batch of 400": 380}),
     SubCheck("single", check_single, strategy=G.c08_single(), quick=150, thorough=8000,
              rule="one pool equilibrium; root() chains vs chempy._equilibrium.solve_equilibrium (brentq)",
              tolerances={"relative": DIFF_RTOL, "absolute": "2*2e-12*|nu| (brentq xtol)"}),
